@@ -14,3 +14,5 @@
     clippy::panic,
     dead_code
 )]
+
+pub mod state;
